@@ -334,6 +334,35 @@ func (r *rw) node(root ast.Node) ast.Node {
 				r.changed = true
 				return true
 			}
+		case *ast.SelectorExpr:
+			// method value of a lock operation (`return mu.Unlock`): wrap the simrt call in a closure
+			if call, isCall := c.Parent().(*ast.CallExpr); isCall && call.Fun == n {
+				return true
+			}
+			fn, ok := info.Uses[n.Sel].(*types.Func)
+			if !ok {
+				return true
+			}
+			target, ok := methodMap[fn.FullName()]
+			if !ok {
+				return true
+			}
+			switch target {
+			case "Lock", "Unlock", "RLock", "RUnlock":
+			default:
+				fail("method value of %s not handled: %s", fn.FullName(), r.pos(n))
+			}
+			if sl := info.Selections[n]; sl == nil || sl.Kind() != types.MethodVal {
+				return true
+			}
+			recv := r.receiverExpr(n)
+			c.Replace(&ast.FuncLit{
+				Type: &ast.FuncType{Params: &ast.FieldList{}},
+				Body: &ast.BlockStmt{List: []ast.Stmt{&ast.ExprStmt{X: call(target, recv)}}},
+			})
+			r.stats["MethodValue"]++
+			r.changed = true
+			return false
 		case *ast.SelectStmt:
 			tokCounter++
 			tok := ast.NewIdent(fmt.Sprintf("simtok%d", tokCounter))
